@@ -301,7 +301,7 @@ def term_matches(term, want):
     """Mirror of Matches(term, want) in CqlTerm.tla; `want` is the JSON image of an expectation."""
     k = want["k"]
     if k == "number":
-        return term[0] in ("int", "float")
+        return term[0] in ("int", "float") and (str(term[1]).startswith("-") == (list(want["v"]) == ["-"]))
     if k == "anystr":
         return term[0] == "str"
     if k == "anyint":
@@ -476,6 +476,8 @@ def instantiate(shape, base=False):
     if tag in v:
         return v[tag][int(text) - 1]
     vals = [instantiate(k, base) for k in kids]
+    if tag == "params":
+        return vals                      # the parameters of one statement (bound by checks/c29.bind, not one value)
     if tag == "list":
         return vals
     if tag == "tuple":
@@ -518,6 +520,8 @@ def want_json(w):
         return {"k": k, "v": [want_json(x) for x in v]}
     if k == "map":
         return {"k": k, "v": [[want_json(x[0]), want_json(x[1])] for x in v]}
+    if k == "number":
+        return {"k": k, "v": list(v)}                 # the sign
     return {"k": k, "v": []}
 
 
